@@ -108,3 +108,23 @@ pub fn glyf_closure(
         depth,
     ))
 }
+
+fn cmap_list(cp_to_new_gid: &[(u32, u32)]) -> Vec<(u32, GlyphId)> {
+    cp_to_new_gid
+        .iter()
+        .map(|(c, g)| (*c, GlyphId::new(*g)))
+        .collect()
+}
+
+/// `Cmap4::serialize` (cmap format 4 subtable writer) on a plain (code point, new glyph id) list;
+/// `Err` carries the serializer's error flag bits.
+pub fn serialize_cmap4(language: u16, cp_to_new_gid: &[(u32, u32)]) -> Result<Vec<u8>, u16> {
+    crate::cmap::verif::serialize_cmap4(language, &cmap_list(cp_to_new_gid))
+        .map_err(|e| e.bits())
+}
+
+/// `Cmap12::serialize` (cmap format 12 subtable writer) on a plain (code point, new glyph id) list.
+pub fn serialize_cmap12(language: u32, cp_to_new_gid: &[(u32, u32)]) -> Result<Vec<u8>, u16> {
+    crate::cmap::verif::serialize_cmap12(language, &cmap_list(cp_to_new_gid))
+        .map_err(|e| e.bits())
+}
